@@ -217,7 +217,8 @@ theorem C02_value (nodes : Nat → Node) (st : Store) (i : Nat) (v : Val)
     (runNode nodes st i).1.callLog = st.callLog ++ [(i, fetchArgs nodes st.out i)] ∧
     ∀ j, j ≠ i → (runNode nodes st i).1.out j = st.out j := by
   unfold runNode
-  simp only [hc, Bool.false_and, Bool.false_eq_true, ↓reduceIte, hf, hargs, Bool.or_self, hfa, hev]
+  simp only [hc, hf, hargs, hfa, hev, Bool.false_and, Bool.false_eq_true, ↓reduceIte, Bool.not_false,
+    Bool.and_self, Bool.not_true]
   refine ⟨by simp, trivial, trivial, trivial, ?_⟩
   intro j hj
   simp [updF, hj]
